@@ -96,6 +96,20 @@ def stepLine (st : Unit) (line : String) : Unit × String :=
       | (.ok o, n) => (st, s!"{showOut o} calls={n}")
       | (.error x, n) => (st, s!"escape {showExc x} calls={n}")
     | _, _, _ => (st, "bad-op")
+  | "CONN" :: envs =>
+    let parsed : Option (List (HandlerEnv Nat)) := envs.mapM fun t =>
+      match t.splitOn "," with
+      | [rb, hd, lk, p] => do
+        let rb ← unitStage? rb
+        let lk ← unitStage? lk
+        let p ← postOutcome? p
+        pure ⟨rb, hd == "1", lk, p, .ok (.ok 0)⟩
+      | _ => none
+    match parsed with
+    | none => (st, "bad-op")
+    | some l =>
+      let r := serveConn l 0
+      (st, " ; ".intercalate (r.1.map showOut) ++ s!" calls={r.2}")
   | ["GET", hd, lk, g] =>
     let gs : Option (Stage GetOut) :=
       if g = "err" then some (.ok .error) else match natStage? g with
